@@ -107,3 +107,41 @@ Theorem C01_small_fields_needed :
     has_type v t = true /\ forall zh, from_val zh t v = Err.
 Proof. exact small_fields_needed. Qed.
 Print Assumptions C01_small_fields_needed.
+
+(* ---- the remaining construction routes (combining C03 and C04 with repr_root) ---- *)
+From Ztyp Require Import Tree View Mut VMach SerProofs DecodeProofs MutProofs RouteProofs.
+
+(* route "deserialization": whatever the deserializer accepts is a view with the spec root of
+   the value the bytes encode (and it re-serializes to the input) *)
+Theorem C01_deserialized :
+  forall (H : chunk -> chunk -> chunk) (zh : nat -> chunk), (forall d, zh d = zero_hash H d) ->
+  forall t bs n,
+    wf_ty t = true -> small_params t = true -> sizes_ok t = true -> small_fields t = true ->
+    lenN bs < 2 ^ 32 -> leaf_ok t (lenN bs) ->
+    view_deserialize zh t bs = OK n ->
+    exists v, has_type v t = true /\ bs = spec_ser t v /\
+              ser_node t n = OK bs /\
+              (no_bool_seq t = true -> root_of H n = spec_htr H t v).
+Proof. exact deser_accept_route. Qed.
+Print Assumptions C01_deserialized.
+
+(* route "chain of mutations": after any history of well-typed operations from a representing
+   start state (e.g. the default, C01_default_repr), every view - in particular the root view,
+   handle 0 - has the spec root of the plain value subjected to the same history *)
+Theorem C01_after_history :
+  forall (H : chunk -> chunk -> chunk) (zh : nat -> chunk), (forall d, zh d = zero_hash H d) ->
+  forall t n v os,
+    ty_ok t -> has_type v t = true -> repr zh t n v ->
+    srcs_ok (v_init t v) os ->
+    forall k x y,
+      nth_error (m_handles node unit (tm_run zh (tm_init t n) os)) k = Some x ->
+      nth_error (v_run (v_init t v) os) k = Some y ->
+      h_ty node x = vh_ty y /\
+      (no_bool_seq (vh_ty y) = true ->
+       root_of H (h_back node x) = spec_htr H (vh_ty y) (vh_val y)) /\
+      (lenN (spec_ser (vh_ty y) (vh_val y)) < 2 ^ 32 ->
+       ser_node (vh_ty y) (h_back node x) = OK (spec_ser (vh_ty y) (vh_val y))) /\
+      (forall fuel, (ty_depth (vh_ty y) <= fuel)%nat ->
+       read_val fuel (vh_ty y) (h_back node x) = OK (vh_val y)).
+Proof. exact history_route. Qed.
+Print Assumptions C01_after_history.
